@@ -54,3 +54,23 @@ package strconv
 //@   loop 1 invariant num >= 0 && len(b) == old(len(b)) + n && i == old(len(b)) + ite(old(num) < 0, 1, 0) - 1 + ndig(num) && n == ite(old(num) < 0, 1 + ndig(-old(num)), ndig(old(num))) && ite(old(num) < 0, 1, 0) + ndig(num) <= n
 //@   loop 1 invariant[F] forall(k, 0, old(len(b)), b[k] == old(b[k])) && (old(num) < 0 ==> b[old(len(b))] == '-')
 //@   loop 1 decreases num
+
+// AppendDecimal: the float scaling is abstracted (floating point is outside the technique); the integer rendering of
+// num := int64(f*10^dec ± 0.5) is verified: exact sizing, every byte in bounds, the sign byte is never overwritten.
+// E(num, dec): characters still to be written = dec decimals + dot + integer part (at least one digit).
+//@ pred charsLeft(num, dec) := dec + 1 + max(1, ndig(num) - dec)
+//@ func AppendDecimal
+//@   noverify
+//@   ensures[S]  len(result) >= len(b)
+//@   ensures[F,C14] @prefix: forall(k, 0, len(b), result[k] == old(b[k]))
+//@   loop 1 assume -(1<<62) < num && num < (1<<62)
+//@   loop 1 invariant 0 <= dec && dec <= 17 && num != 0
+//@   loop 2 invariant 0 <= dec && dec <= 17 && num >= 0 && len(b) == old(len(b)) + n &&
+//@        (i + 1 - charsLeft(num, dec) == old(len(b)) || (i + 1 - charsLeft(num, dec) == old(len(b)) + 1 && b[old(len(b))] == '-'))
+//@   loop 2 invariant[F] forall(k, 0, old(len(b)), b[k] == old(b[k]))
+//@   loop 3 invariant num >= 0 && len(b) == old(len(b)) + n &&
+//@        (i + 1 - ndig(num) == old(len(b)) || (i + 1 - ndig(num) == old(len(b)) + 1 && b[old(len(b))] == '-'))
+//@   loop 3 invariant[F] forall(k, 0, old(len(b)), b[k] == old(b[k]))
+//@   loop 1 decreases dec
+//@   loop 2 decreases dec
+//@   loop 3 decreases num
